@@ -27,7 +27,7 @@ state so reached, the search cursor with it; no exit handler is called. -/
 theorem C03_start (c : Chart) (hwf : WF c) (s : St) (hs : s ≠ []) :
     ∃ r, startAt c Miros.Gen.cfg s = .ok r ∧ actions r.log = (specStart c s).log ∧
       r.state = (specStart c s).state ∧ r.temp = r.state ∧ (∀ x ∈ r.log, x.sig ≠ .exit) := by
-  have h := start_checked c Miros.Gen.cfg (by decide) hwf.init_depth s hs (depth_pos_or_no_init c hwf s)
+  have h := start_checked c hwf.no_fall Miros.Gen.cfg (by decide) hwf.init_depth s hs (depth_pos_or_no_init c hwf s)
   rw [specStartC_of_WF c hwf s] at h
   obtain ⟨r, h1, h2, h3, h4, h5⟩ := h
   exact ⟨r, h1, h2, h3, by rw [h4, h3], h5⟩
@@ -49,6 +49,7 @@ def demo : Chart where
     else none
   exitH := fun _ => true
   depth := 5
+  fall := fun _ => false
 
 theorem demo_WF : WF demo where
   init_desc := by
@@ -69,6 +70,7 @@ theorem demo_WF : WF demo where
       · cases h
   tran_ne_top := by intro s n t h; simp [demo] at h
   no_none := by intro s n; simp [demo]
+  no_fall := fun _ => rfl
 
 example : specStart demo [2, 1] =
     ⟨[5, 4, 3, 2, 1],
